@@ -245,7 +245,12 @@ class DoitMain(object):
         """
         # get list of available commands
         sub_cmds = self.get_cmds()
-        task_loader = get_loader(self.config, self.task_loader, sub_cmds)
+        try:
+            task_loader = get_loader(self.config, self.task_loader, sub_cmds)
+        except InvalidCommand as err:
+            # unknown loader name in the configuration
+            sys.stderr.write("ERROR: %s\n" % str(err))
+            return 3
 
         # special parameters that dont run anything
         if all_args:
